@@ -14,7 +14,7 @@ E1_ASSUME = [
 CHECKS = {
     "C14": dict(
         level="model_checking",
-        rule="stateless DFS over all schedules (preemption-bounded or unbounded, see parts) of the real provider + real dispatcher ingesting back-to-back updates of one alert; a state = distinct observed outcome (provider version, group copies, deliveries); transitions = hooked synchronisation steps executed",
+        rule="stateless DFS over all schedules (preemption-bounded or unbounded, see parts) of the real provider + real dispatcher ingesting back-to-back updates of one alert; a state = distinct observed outcome (provider version, group copies, deliveries); transitions = hooked synchronisation steps executed Further kinds: two overlapping writers, both versions in one request, submissions from a client that has gone away (cancelled context), GOMAXPROCS lowered between two submissions.",
         assumptions=E2_ASSUME,
         engine="schedx",
         technique="stateless model checking of the implementation: controlled scheduler + preemption-bounded (quick) / unbounded (thorough) DFS over all interleavings",
@@ -31,7 +31,7 @@ NOT_APPLICABLE = {}
 CHECKS["C18"] = dict(
     level="model_checking",
     engine="seqx",
-    rule="all event sequences up to the completed depth over the per-part alphabet, each run on a fresh real object under virtual time; state = distinct observation trace; transitions = events executed; oracle evaluated after every event",
+    rule="all event sequences up to the completed depth over the per-part alphabet, each run on a fresh real object under virtual time; state = distinct observation trace; transitions = events executed; oracle evaluated after every event Further parts: the GET limiter through api.New + Register (web tree and API tree share one limit), with and without a request timeout; Set || Set || Query with one free slot under MaxSilences (all interleavings); silence size boundary sweep.",
     technique="bounded-exhaustive event-sequence exploration of the implementation (explicit enumeration of all operation histories up to depth d) with invariant oracles on the real state",
     level_text="Every history up to depth 5 (quick) / 6-8 (thorough) of posts with short/long ends, clock advances and GC runs against the real provider+store+limit bucket; the counting invariant, re-send acceptance, reported refusals and GC safety are checked after every event. Silence limits and the GET limiter are explored the same way.",
     level_note="Bounds: one alert name, <=4 distinct alerts, ends 5s/10s/200s, advances 6s/30s; limits 1,2,3. Values outside the alphabet are not explored.",
@@ -73,7 +73,7 @@ CHECKS["C02"] = dict(
 CHECKS["C12"] = dict(
     level="model_checking",
     engine="seqx",
-    rule="explicit-state BFS over canonical states (API-visible store content + reference-model content, instants relative to now) of the real silence API handlers on a real silence.Silences; events: creates (now / pending / start in the past / invalid), edits (comment, end +/-/past, start, matchers, unknown id), expire, GC, clock advances 1/2/3 (retention 3); states = distinct canonical states, transitions = events executed",
+    rule="explicit-state BFS over canonical states (API-visible store content + reference-model content, instants relative to now) of the real silence API handlers on a real silence.Silences; events: creates (now / pending / start in the past / invalid), edits (comment, end +/-/past, start, matchers, unknown id), expire, GC, clock advances 1/2/3 (retention 3); states = distinct canonical states, transitions = events executed Also: library-level validation of matcher-set lists, edit of a fetched silence against the same edit on a private copy (3 states x 4 ways of fetching x 8 changes), store sizes 1..4100 across GC.",
     technique="explicit-state model checking of the implementation against a reference lifecycle model (lock-step comparison after every event)",
     level_text="After every event of every history the real store (GET /silences through the handlers) is compared with a reference lifecycle model written from the statement: fresh ids, start never in the past, id kept exactly for allowed edits, history-rewriting edits expire the old silence and create a new id, unknown ids / past ends / invalid matchers rejected and leaving the store unchanged, idempotent immediate expiry, queryable until end+retention, collected afterwards, pending/active never collected.",
     level_note="Handlers are called directly (no swagger request validation). Bounds: 2 silence slots, ends +1/+2/+4 s, retention 3 s, depth 5 (quick) / 8 (thorough). Exact boundary instants (now == end) are not generated: the statement does not fix them.",
@@ -118,7 +118,7 @@ FAPP_ASSUME = E1_ASSUME + [
 CHECKS["C01"] = dict(
     level="model_checking",
     engine="seqx+schedx",
-    rule="all event sequences up to the completed depth over {fire A1 (heartbeat), fire A2 (explicit end), fire A3 (other group), resolve, silence on/off, integration mode recoverable/unrecoverable/hang/ok, reload, advance 4s/10s/30s/61s} on the real App, closed by a 3m30s tail; plus controlled-scheduler scenarios of alert insertion racing group destruction and maintenance; states = distinct delivery traces / outcomes; transitions = events / synchronisation steps",
+    rule="all event sequences up to the completed depth over {fire A1 (heartbeat), fire A2 (explicit end), fire A3 (other group), resolve, silence on/off, integration mode recoverable/unrecoverable/hang/ok, reload, advance 4s/10s/30s/61s} on the real App, closed by a 3m30s tail; plus controlled-scheduler scenarios of alert insertion racing group destruction and maintenance; states = distinct delivery traces / outcomes; transitions = events / synchronisation steps Further scenarios: a delivery that takes 25 s of a 30 s group interval (slow flush), a start-timer switch schedule (S5).",
     technique="bounded-exhaustive event-sequence exploration of the assembled implementation under virtual time with trace monitors; preemption-bounded schedule exploration of insert vs flush-destroy vs maintenance",
     level_text="Every history is executed on the fully assembled real instance (provider, dispatcher, inhibitor, silencer, dedup, retry, nflog, API). Monitors: eligible+accepting for longer than B => successful notification listing the alert firing by B and never omitted for longer than B afterwards; retry law inside a flush; C04 and C05 monitors run as well.",
     level_note="B = max(group_wait, group_interval) + 20s slack (hang 8s + largest backoff gap). One route shape here; routing shapes are C07's, cluster wait C08's.",
@@ -130,7 +130,7 @@ CHECKS["C01"] = dict(
 CHECKS["C04"] = dict(
     level="model_checking",
     engine="seqx",
-    rule="all event sequences up to the completed depth over {fire A1/A2 (explicit end), resolve A1/A2, silence A2 on/off, all integrations failing/ok, restart on the same data dir, reload, advance 10s/30s/2m/2m31s} on the real App (nflog maintenance every 50s), 5m tail; states = distinct delivery traces; transitions = events",
+    rule="all event sequences up to the completed depth over {fire A1/A2 (explicit end), resolve A1/A2, silence A2 on/off, all integrations failing/ok, restart on the same data dir, reload, advance 10s/30s/2m/2m31s} on the real App (nflog maintenance every 50s), 5m tail; states = distinct delivery traces; transitions = events Further scenarios: group sizes 1..200 on the real receiver pipeline; repeat_interval below group_interval; a matrix of five unusual group_wait / group_interval / repeat_interval shapes with restart and reload.",
     technique="bounded-exhaustive event-sequence exploration of the assembled implementation under virtual time with a justification / repeat-window trace monitor",
     level_text="Per (group, integration) every successful notification must be justified w.r.t. the previous one (new firing alert, newly resolved alert with send_resolved, > repeat_interval, or a quiet moment in between); an unchanged firing group is re-notified by repeat_interval + group_interval + slack; a notification without firing alerts directly follows one with firing alerts. Restart and reload are ordinary events (real snapshot files).",
     level_note="repeat_interval 2m, group_interval 30s, retention 10m; two integrations (send_resolved true/false).",
@@ -143,7 +143,7 @@ CHECKS["C04"] = dict(
 CHECKS["C05"] = dict(
     level="model_checking",
     engine="seqx",
-    rule="all event sequences up to the completed depth over {fire A heartbeat / explicit end, resolve A, fire B, webhook hang 8s / recoverable / ok, advance 3s/10s/30s/61s} on the real App, 3m tail; states = distinct delivery traces; transitions = events",
+    rule="all event sequences up to the completed depth over {fire A heartbeat / explicit end, resolve A, fire B, webhook hang 8s / recoverable / ok, advance 3s/10s/30s/61s} on the real App, 3m tail; states = distinct delivery traces; transitions = events Further scenarios: late flush (interval below the delivery time), flap within a second, muted across a notification, repeat_interval below group_interval, the timing matrix, a receiver outage across a repeat during which the alert resolves (own monitor).",
     technique="bounded-exhaustive event-sequence exploration of the assembled implementation under virtual time with a resolved-truth trace monitor",
     level_text="No payload lists an alert resolved while the submitted timeline says it fires; send_resolved=false integrations never receive resolved alerts; an alert told firing that ends (explicitly or by timeout) is told resolved within B unless it re-fired; a group that resolved entirely inside group_wait sends nothing; re-fire during an in-flight (hanging) resolved delivery is reported firing at the next flush (C01 monitor).",
     level_note="Ends are explicit (now) or heartbeat timeouts (resolve_timeout 1m); merge tie-breaks are C13's subject.",
@@ -252,7 +252,7 @@ CHECKS["C20"] = dict(
 CHECKS["C11"] = dict(
     level="fault_enumeration",
     engine="crashx",
-    rule="a history of 3 snapshots written by the real Maintenance loop (GC, openReplace, Snapshot, Sync, Close, Rename) on a logging in-memory file system; every prefix of the operation log with writes split per byte / 64-byte block, as a process kill and as every power-loss image (namespace-suffix loss x unsynced-data loss x zero-filled tail, rename may overtake unsynced data); the real loader runs on each image; each image with a leftover temp file is also continued (restart, shrink, one complete snapshot, clean start); plus every byte prefix / byte substitution of a valid snapshot. distinct = (kind, visible snapshot, file count) classes",
+    rule="a history of 3 snapshots written by the real Maintenance loop (GC, openReplace, Snapshot, Sync, Close, Rename) on a logging in-memory file system; every prefix of the operation log with writes split per byte / 64-byte block, as a process kill and as every power-loss image (namespace-suffix loss x unsynced-data loss x zero-filled tail, rename may overtake unsynced data); the real loader runs on each image; each image with a leftover temp file is also continued (restart, shrink, one complete snapshot, clean start); plus every byte prefix / byte substitution of a valid snapshot. distinct = (kind, visible snapshot, file count) classes Also: entries / silences the store may refuse or that are merely odd (not UTF-8, NUL bytes, 1 MB, gossip-learned oddities) followed by snapshot and restart; a Log / Set before every file-system step of a maintenance run, then shutdown and restart; every cut of a snapshot that is not at a record boundary must be refused.",
     technique="exhaustive crash-point and lost-write enumeration over the recorded write history of the real snapshot writer, real loader on every image",
     level_text="For silences and the notification log independently: on every crash image the loader starts without error and loads exactly the state captured by the snapshot that the durable renames make visible (never torn, partial or mixed); a leftover temp file never corrupts a later snapshot; every byte prefix of a snapshot decodes to an error or exactly the wholly contained records; no byte substitution makes the loader panic; snapshot -> load reproduces every entry (multiple matcher sets, annotations, receiver data, legacy shapes).",
     level_note="Power-loss model: ordered namespace journal, unsynced data lost from any point, rename may be durable before data. Durability of the rename itself is not demanded (the code never fsyncs the directory): an earlier complete snapshot is accepted when later renames are lost.",
@@ -266,7 +266,7 @@ CHECKS["C11"] = dict(
 CHECKS["C19"] = dict(
     level="model_checking",
     engine="seqx",
-    rule="bus: all event sequences up to the completed depth over 24 events {create small / oversized / threshold-straddling silence, nflog entry, gossip rounds with loss and duplication (one real GetBroadcasts call each), reliable links down/up, push/pull, join, 6 kinds of garbage} on 3-4 nodes made of the real delegate, TransmitLimitedQueue, Channels, silence.Silences and nflog.Log, followed by a closing phase (links up, fresh small+oversized update per node, gossip until drained, then push/pull). mesh: real memberlist over an in-memory network (see C08). states = distinct observation classes; transitions = events",
+    rule="bus: all event sequences up to the completed depth over 24 events {create small / oversized / threshold-straddling silence, nflog entry, gossip rounds with loss and duplication (one real GetBroadcasts call each), reliable links down/up, push/pull, join, 6 kinds of garbage} on 3-4 nodes made of the real delegate, TransmitLimitedQueue, Channels, silence.Silences and nflog.Log, followed by a closing phase (links up, fresh small+oversized update per node, gossip until drained, then push/pull). mesh: real memberlist over an in-memory network (see C08). states = distinct observation classes; transitions = events bus-size-sweep: every comment length 0..1500 on a two-node bus with the GetBroadcasts parameters memberlist really passes, no push/pull. tls / tls-pool: concurrent packet writes on the pooled connection, all interleavings.",
     technique="bounded-exhaustive event-sequence exploration of the real gossip delegate/channel code with an explorer-controlled message bus",
     level_text="After every event no node has lost or regressed an update, holds only updates some node made, and garbage (truncated, bit-flipped, unknown key, empty, malformed part inside a full state) changes nothing and does not block the valid parts; in the closing phase every fresh update (small by gossip, oversized by reliable send) reaches every connected node without push/pull, and after push/pull every node - including a late joiner - holds everything.",
     level_note="memberlist is replaced by the harness in this part: Peer.AddState's closures are restated in harness/cluster/busnode.go (send is identical; peers/sendOversize are injected). The mesh part (C08/C19-mesh) runs the real memberlist and the real AddState.",
